@@ -945,6 +945,77 @@ func TestSetMillion(t *testing.T) {
 	vp.NonTrivialN("c11.set-million", 6)
 }
 
+// TestSetEveryMember: for sets of many sizes (every size up to 300, the
+// neighbours of powers of two up to 2^17 and some in between), Has of every
+// member and of every gap, and Delete followed by Add of members at every
+// position (every 61st position for the large sizes): "Has agrees with
+// membership" for every position of the value in the storage, not only the
+// first, the last and a generated few.
+func TestSetEveryMember(t *testing.T) {
+	if sh, _ := vp.Shard(); sh != 0 {
+		t.Skip("deterministic: shard 0 only")
+	}
+	sizes := []int{1000, 1500, 3000, 5000, 6000, 10000, 50000, 100000}
+	for n := 0; n <= 300; n++ {
+		sizes = append(sizes, n)
+	}
+	for k := 9; k <= 17; k++ {
+		sizes = append(sizes, 1<<k-1, 1<<k, 1<<k+1, 3<<(k-1))
+	}
+	for _, n := range sizes {
+		vals := make([]int, n)
+		for i := range vals {
+			vals[i] = 2*i + 10
+		}
+		set := container.NewSortedSliceSet(vals...)
+		fail := func(format string, args ...any) {
+			vp.Fail(t, "c11.set-every", map[string]any{"n": n}, fmt.Errorf("sorted set of the %d even values 10..%d: %s", n, 2*n+8, fmt.Sprintf(format, args...)))
+		}
+		for i := 0; i < n; i++ {
+			vp.Eval("c11.set-every")
+			if !set.Has(2*i + 10) {
+				fail("Has(%d) = false for the member at sorted position %d (%d from the end)", 2*i+10, i, n-i)
+				return
+			}
+			if set.Has(2*i + 11) {
+				fail("Has(%d) = true for a value that was never added", 2*i+11)
+				return
+			}
+		}
+		stride := 1
+		if n > 6000 {
+			stride = 61
+		}
+		for i := 0; i < n; i += stride {
+			vp.Eval("c11.set-every")
+			v := 2*i + 10
+			set.Add(v)
+			if set.Len() != n {
+				fail("Add(%d) of the member at sorted position %d (%d from the end): Len() = %d, want %d", v, i, n-i, set.Len(), n)
+				return
+			}
+			set.Delete(v)
+			if set.Len() != n-1 || set.Has(v) {
+				fail("Delete(%d) of the member at sorted position %d (%d from the end): Len() = %d, want %d; Has = %v", v, i, n-i, set.Len(), n-1, set.Has(v))
+				return
+			}
+			set.Add(v)
+			if set.Len() != n || !set.Has(v) {
+				fail("Add(%d) back at sorted position %d: Len() = %d, want %d; Has = %v", v, i, set.Len(), n, set.Has(v))
+				return
+			}
+		}
+		prev, sorted := math.MinInt, true
+		set.Range(func(v int) bool { sorted = sorted && v > prev; prev = v; return sorted })
+		if !sorted {
+			fail("Range is not strictly ascending (at %d) after deleting and re-adding members", prev)
+			return
+		}
+	}
+	vp.Class("set-every:every-member-position-of-many-sizes")
+	vp.NonTrivialN("c11.set-every", int64(len(sizes)))
+}
+
 // TestRingManyPushes (thorough tier, 32-bit variant only): more pushes into
 // one buffer than a uint can count there (2^32 + 5), then the usual
 // observations.  "The last min(k, n) values pushed" has no upper bound on k.
